@@ -8,7 +8,7 @@ from .common import hx, unhx
 
 ID = 'C17'
 GEN_DEPS = []
-RULE = ('producer schedules (0-12 messages over 1-8 polls: bursts before a yield, Pending polls without pushes, completion with a non-empty queue) x messages from a pool of awkward texts '
+RULE = ('every public way to answer with an event stream (DataStream::new over String and over &str, DataStream::from(stream), Response::with_stream(stream)) x producer schedules (0-12 messages over 1-8 polls: bursts before a yield, Pending polls without pushes, completion with a non-empty queue) x messages from a pool of awkward texts '
         '(empty, leading space, LF/CRLF/CR inside and at the end, blank lines, data:/id:/event:/retry: look-alikes, comments, non-ASCII, long) ; non-trivial = at least 2 messages or a message '
         'with a line break or a field look-alike; distinct by canonical JSON')
 ASSUMPTIONS = ['one poll of the producer = one step of the schedule (the producer yields to the executor exactly once between steps)',
@@ -37,7 +37,8 @@ def corpus():
 
 def generate(rng, tier):
     n = 2000 if tier == 'quick' else 60000
-    return [{'case': {'sched': sched_gen(rng)}} for _ in range(n)]
+    # every public way to answer with an event stream: DataStream::new (String and &'static str), DataStream::from(stream), Response::with_stream(stream)
+    return [{'case': {'sched': sched_gen(rng), 'entry': rng.choice(['new', 'new', 'from', 'with_stream', 'str'])}} for _ in range(n)]
 
 
 def dechunk(b):
